@@ -186,6 +186,36 @@ func c07Faults() []fault {
 			s.v.Elem().SetFloat(x)
 			return "range:decimal64"
 		}},
+		{"range:decimal64:sub-quantum", func(cfg *lib.Cfg, t ygot.GoStruct, rng *rand.Rand) string {
+			// a float64 between the range bound and the next member of the
+			// type outside it (0.1-0.4 quantum beyond the bound): outside the
+			// range, so outside the value space
+			s, ok := pick(rng, sites(cfg, t, func(n *lib.Node, f *lib.FieldInfo, v reflect.Value) bool {
+				if f.Kind != lib.KLeaf || !isSet(v) || !scalarPtr(v) || f.YType.Kind != yang.Ydecimal64 || isKeyField(n, f) || f.YType.FractionDigits >= 15 {
+					return false
+				}
+				_, ok := outOfRange(f.YType)
+				return ok
+			}))
+			if !ok {
+				return ""
+			}
+			bad, _ := outOfRange(s.f.YType)
+			d := big.NewInt(1 + rng.Int63n(4))
+			var v10 *big.Int
+			if lib.InRanges(s.f.YType, new(big.Int).Sub(bad, big.NewInt(1))) {
+				v10 = new(big.Int).Add(new(big.Int).Mul(new(big.Int).Sub(bad, big.NewInt(1)), big.NewInt(10)), d)
+			} else {
+				v10 = new(big.Int).Sub(new(big.Int).Mul(new(big.Int).Add(bad, big.NewInt(1)), big.NewInt(10)), d)
+			}
+			if len(strings.Trim(new(big.Int).Abs(v10).String(), "0")) > 12 {
+				return ""
+			}
+			fl, _ := new(big.Float).SetString(lib.ScaledToDecimalString(v10, s.f.YType.FractionDigits+1))
+			x, _ := fl.Float64()
+			s.v.Elem().SetFloat(x)
+			return "range:decimal64:sub-quantum-outside"
+		}},
 		{"length:string", func(cfg *lib.Cfg, t ygot.GoStruct, rng *rand.Rand) string {
 			s, ok := pick(rng, sites(cfg, t, func(n *lib.Node, f *lib.FieldInfo, v reflect.Value) bool {
 				return f.Kind == lib.KLeaf && isSet(v) && scalarPtr(v) && f.YType.Kind == yang.Ystring && len(f.YType.Length) > 0 && !isKeyField(n, f)
